@@ -56,7 +56,7 @@ func checkC09(c *Ctx) {
 		r.count("EP/sink/belief", 1)
 	}
 	n := len(c.U.TC)
-	r.floor("EP/sink/primitive", 3+2*n, "WritePageHeader, Footer x2, RequiredField.DoWrite, OptionalField.DoWrite + begin and Close per generated package")
+	r.floor("EP/sink/primitive", 3+n, "WritePageHeader, Footer x2, RequiredField.DoWrite, OptionalField.DoWrite + at least one write of the magic per generated package")
 	r.floor("EP/sink/param-dynamic", n, "opt(p) in newParquetWriter per generated package")
 	r.floor("EP/sink/derived", 1+3*n, "DoWrite->WritePageHeader x2; NewParquetWriter, Write x2, Close per generated package")
 	r.floor("EP/sink/belief", n, "Add -> newParquetWriter per generated package")
